@@ -235,6 +235,10 @@ func (w *World) Exec(op *Op) (Result, M) {
 		out["seed"] = jsonNum(seed.String())
 		delete(out, "creator")
 		return Result{Res: "ok"}, out
+	case "restart":
+		delete(out, "creator")
+		resetGlobals()
+		return Result{Res: "ok"}, out
 	case "begin":
 		delete(out, "creator")
 		return w.runBlocker(func(ctx sdk.Context) { nodemodule.BeginBlocker(ctx, app.NodeKeeper) }), out
